@@ -8,6 +8,7 @@ mod flock;
 mod image;
 mod seglog;
 mod iohook;
+mod leafupd;
 mod ovl;
 mod stress;
 mod locksdemo;
@@ -57,6 +58,7 @@ fn main() {
         "bitops" => bitops::run(seed, cases, &mut sink),
         "bitops-node" => bitops::run_nodes(seed, cases, &mut sink),
         "seglog" => seglog::run(seed, cases, &mut sink),
+        "leafupd" => leafupd::run(seed, cases, &mut sink),
         "core-pp" => core_pp::run(seed, cases, &mut sink),
         "core-mp" => core_mp::run(seed, cases, &mut sink),
         "core-mp-corpus" => {
